@@ -3,7 +3,9 @@ package props
 import (
 	"encoding/json"
 	"fmt"
+	"runtime"
 	"strings"
+	"time"
 
 	"verif/harness/internal/corpus"
 	"verif/harness/internal/pparse"
@@ -17,6 +19,62 @@ type seqCase struct {
 	Variant   int              `json:"sched_variant"`
 	SchedSeed uint64           `json:"sched_seed"`
 	Decisions []simrt.Decision `json:"decisions,omitempty"`
+	Native    bool             `json:"native,omitempty"` // cross-check on the plain build with the real runtime
+}
+
+// scannerGoroutines counts the goroutines of the real runtime that are inside the scanner loop.
+func scannerGoroutines() int {
+	buf := make([]byte, 1<<20)
+	for {
+		n := runtime.Stack(buf, true)
+		if n < len(buf) {
+			return strings.Count(string(buf[:n]), "parse.(*lexer).run")
+		}
+		buf = make([]byte, 2*len(buf))
+	}
+}
+
+// nativeLeakCheck executes the calls on the un-instrumented build and then looks at the real
+// runtime: a goroutine blocked for ever stays for ever, so once the count has been stable for a
+// while any scanner goroutine still alive is a leak (no false alarm on a slow machine).
+func nativeLeakCheck(sc seqCase) (*wk.Failure, int) {
+	base := scannerGoroutines()
+	done := 0
+	for _, c := range sc.Calls {
+		c := c
+		fin := make(chan struct{})
+		go func() {
+			defer close(fin)
+			pparse.Exec(c)
+		}()
+		select {
+		case <-fin:
+		case <-time.After(10 * time.Second):
+			return nil, done // a parse that does not return is C05's subject
+		}
+		done++
+	}
+	last, stable := -1, 0
+	for i := 0; i < 200 && stable < 6; i++ {
+		time.Sleep(25 * time.Millisecond)
+		n := scannerGoroutines()
+		if n == last {
+			stable++
+		} else {
+			last, stable = n, 0
+		}
+		if n <= base {
+			return nil, done
+		}
+	}
+	if last > base {
+		sc.Native = true
+		sc.Decisions = nil
+		b, _ := json.Marshal(sc)
+		return &wk.Failure{Class: "native-leak", Site: "scanner goroutine alive in the real runtime after the parse calls returned",
+			Detail: fmt.Sprintf("%d scanner goroutine(s) (frames of parse.(*lexer).run) are still alive %d ms after a sequence of %d parse calls returned, on the un-instrumented build", last-base, 150, len(sc.Calls)), Replay: b}, done
+	}
+	return nil, done
 }
 
 // trailing inputs: a complete expression followed by more tokens, errors inside quoted
@@ -81,6 +139,10 @@ func (w *parseWork) seqCall(r *simrt.RNG, thorough bool) pparse.Call {
 		// compile of 1-3 files
 		var files []string
 		for i, n := 0, 1+r.Intn(3); i < n; i++ {
+			if r.Intn(3) == 0 {
+				files = append(files, fmt.Sprintf("{namespace ok.n%d}\n/** */\n{template .t}\nhello {sp}\n{/template}\n", i))
+				continue
+			}
 			c := w.seededCall(r, thorough)
 			if c.Entry != "file" {
 				c.Input = corpus.Wrap("{" + c.Input + "}")
@@ -90,7 +152,11 @@ func (w *parseWork) seqCall(r *simrt.RNG, thorough bool) pparse.Call {
 			}
 			files = append(files, c.Input)
 		}
-		return pparse.Call{Entry: "compile", Files: files, Kind: "compile"}
+		kind := "compile"
+		if r.Intn(3) == 0 {
+			kind = "compile-unnamed"
+		}
+		return pparse.Call{Entry: "compile", Files: files, Kind: kind}
 	case x < 60:
 		// a prefix of a corpus item
 		s := w.item(r.Intn(len(w.corp.Files) + len(w.corp.Strings)))
@@ -186,6 +252,14 @@ func C18(c *wk.Ctx) {
 	if c.Mode == "replay" {
 		var sc seqCase
 		readReplay(c, &sc)
+		if sc.Native {
+			u := wk.NewUnit(0)
+			f, done := nativeLeakCheck(sc)
+			u.Evals = int64(done)
+			u.AddFail(f)
+			c.Emit(u)
+			return
+		}
 		f, res, _, done := runSeq(sc, true)
 		u := wk.NewUnit(0)
 		u.Evals = int64(done)
@@ -199,7 +273,7 @@ func C18(c *wk.Ctx) {
 	nSeq := 400
 	maxLen := 40
 	if c.Tier == "thorough" {
-		nSeq = 40000
+		nSeq = 120000
 		maxLen = 200
 	}
 	total := len(units) + nSeq
@@ -228,6 +302,14 @@ func C18(c *wk.Ctx) {
 				sc.Calls = append(sc.Calls, w.seqCall(r, c.Tier == "thorough"))
 			}
 		}
+		if c.Extra == "native" {
+			f, done := nativeLeakCheck(sc)
+			u.Evals += int64(done)
+			u.Counters["native_sequences"]++
+			u.AddFail(f)
+			c.Emit(u)
+			continue
+		}
 		// long exhaustive units are split into sequences of at most 200 calls
 		var digest uint64
 		for len(sc.Calls) > 0 {
@@ -243,7 +325,7 @@ func C18(c *wk.Ctx) {
 			u.Counters["sequences"]++
 			u.Counters["tasks_spawned"] += int64(res.Tasks - 1)
 			u.Counters["switches"] += res.Switches
-			if res.Budget || res.Deadlock {
+			if res.Budget || res.Deadlock || len(res.TaskPanics) > 0 || res.MainPanic != nil {
 				u.Counters["sequences_cut_by_c05_condition"]++
 			}
 			for i, o := range outcomes {
